@@ -62,7 +62,11 @@ const c17Rules = `
 rule "main" "d" salience 10
 begin
   S(@name)
-  gatei(who.Id)
+  lit(4, 5, 6)
+  conc {
+    failif(who.Kind)
+    gatei(who.Id)
+  }
   loc = who.Id
   who.M["k"] = loc
   who.Sl[1] = loc
@@ -104,7 +108,7 @@ end
 func init() {
 	register(&Prop{
 		ID:   "C17",
-		Rule: "request histories on pools of size (1,2),(1,3),(2,3),(2,4),(3,6): start request (healthy / rule error / panicking injected function / type fault outside the self-recovering constructs / missing name / store into a nil map / wrong key kind / out-of-range element store and read / a healthy request that injects its own function, map and slice under names and Go types of values the pool was constructed with; every request also binds a local and writes its own map and slice) through any of the 24 pool execute methods, release the k-th outstanding request; up to max+4 outstanding, every request parks inside its rule on a Hold gate keyed by its id; oracle after every step: the number of requests parked inside rules equals min(max, outstanding) within the bound (waiters proceed, nothing lost) and never exceeds max, every finished request returned its own id (two in-flight requests on one instance would overwrite each other's injected object), a request never fails because the pool is busy, and after the history max requests park simultaneously again. 8% of the cases (2% in the thorough tier) are hand-over storms instead: max-1 requests stay inside their rule, the last instance is passed along a chain of 100-800 (thorough 1500) requests, each issued a generated number of spin iterations after its predecessor is let go (at most four storms at a time across the shard processes); every next request must enter its rule within the hang bound after the previous one returned and must return its own id. Non-trivial: at some point more than max requests are outstanding and a failing or panicking request finished before the final probe, or a storm of >= 300 hand-overs; distinct by case hash",
+		Rule: "request histories on pools of size (1,2),(1,3),(2,3),(2,4),(3,6): start request (healthy / rule error / panicking injected function / type fault outside the self-recovering constructs / missing name / store into a nil map / wrong key kind / out-of-range element store and read / a request with a nil data map (kind 11, fails on the missing names without parking) / a failing child of the conc block in which every request parks (kind 10) / a healthy request that injects its own function, map and slice under names and Go types of values the pool was constructed with; every request also binds a local and writes its own map and slice) through any of the 24 pool execute methods, release the k-th outstanding request; up to max+4 outstanding, every request parks inside its rule on a Hold gate keyed by its id; oracle after every step: the number of requests parked inside rules equals min(max, outstanding) within the bound (waiters proceed, nothing lost) and never exceeds max, every finished request returned its own id (two in-flight requests on one instance would overwrite each other's injected object), a request never fails because the pool is busy, and after the history max requests park simultaneously again. 8% of the cases (2% in the thorough tier) are hand-over storms instead: max-1 requests stay inside their rule, the last instance is passed along a chain of 100-800 (thorough 1500) requests, each issued a generated number of spin iterations after its predecessor is let go (at most four storms at a time across the shard processes); every next request must enter its rule within the hang bound after the previous one returned and must return its own id. Non-trivial: at some point more than max requests are outstanding and a failing or panicking request finished before the final probe, or a storm of >= 300 hand-overs; distinct by case hash",
 		New:  func() interface{} { return &C17Case{} },
 		Gen: func(t *rapid.T) interface{} {
 			c := &C17Case{}
@@ -141,7 +145,7 @@ func init() {
 				}
 				f := int64(0)
 				if pct(t, fmt.Sprintf("faulty%d", i), 40) {
-					f = int64(uni(t, fmt.Sprintf("fault%d", i), 1, 9))
+					f = int64(uni(t, fmt.Sprintf("fault%d", i), 1, 11))
 				}
 				c.Ops = append(c.Ops, C17Op{Kind: "start", Fault: f, Method: uni(t, fmt.Sprintf("m%d", i), 0, 23)})
 				out++
@@ -244,7 +248,7 @@ func init() {
 					startCleared[nextID] = cleared
 					call := fullCall(methods[op.Method%len(methods)], []string{"main", "aux"}, step)
 					fault := op.Fault
-					if fault == 9 && call.Method == "ExecuteRulesWithSpecifiedEM" {
+					if (fault == 9 || fault == 11) && call.Method == "ExecuteRulesWithSpecifiedEM" {
 						fault = 0 // that method injects at most two values
 					}
 					h.start(nextID, fault, []string{"who"}, call)
@@ -272,6 +276,13 @@ func init() {
 				h.settle(x, fmt.Sprintf("step %d (%s)", step, op.Kind))
 				for _, r := range h.takeReaped() {
 					if startEpoch[r.id] != epoch || startCleared[r.id] {
+						if !checkReq(r, step) {
+							return
+						}
+						continue
+					}
+					if r.kind == 11 {
+						// no data at all: the rule fails before it can park
 						if !checkReq(r, step) {
 							return
 						}
